@@ -139,6 +139,7 @@ Inductive payload :=
 | PEngine (time : N) (prim sec : option (list evview))
 | PIdGen (kind : str) (next : N)
 | PComp (spec_hash : str) (state : option tok) (has_tick : bool) (next_tick : N)
+        (has_handled : bool) (last_handled : N)
 | PEvComp (spec_hash : str) (state : option tok) (pending : N)
 | PPort (incoming outgoing : bufck)
 | PStorage (words : list N) (units : list (N * tok))
@@ -161,6 +162,7 @@ Inductive entity :=
 | EEngine (time : N) (q1 q2 : list ev) (handlers : list str)
 | EIdGen (next : N)
 | EComp (spec_hash : str) (state : tok) (has_tick : bool) (next_tick : N)
+        (has_handled : bool) (last_handled : N)
 | EEvComp (spec_hash : str) (state : tok) (pending : N)
 | EPort (icap : Z) (ielems : list msg) (ocap : Z) (oelems : list msg)
 | EStorage (cap unit : N) (units : list (N * tok))
@@ -190,7 +192,7 @@ Definition save_entity (e : entity) : payload :=
   | EEngine t q1 q2 _ =>
       PEngine t (Some (map evview_of (sort_time q1))) (Some (map evview_of (sort_time q2)))
   | EIdGen n => PIdGen sequential n
-  | EComp h st ht nt => PComp h (Some st) ht nt
+  | EComp h st ht nt hh lh => PComp h (Some st) ht nt hh lh
   | EEvComp h st pw => PEvComp h (Some st) pw
   | EPort ic ie oc oe => PPort (save_buffer ic ie) (save_buffer oc oe)
   | EStorage c u units => PStorage [c; u; N.of_nat (length units)] (ks_sort N.ltb units)
@@ -414,14 +416,14 @@ Definition load_entity_with
       | PIdGen k n => if str_eqb k sequential then Ok (EIdGen n) else Err EIdKind
       | _ => Err EView
       end
-  | EComp h _ _ _ =>
+  | EComp h _ _ _ _ _ =>
       match p with
       | PMalformed => Err EDecode
-      | PComp h' st ht nt =>
+      | PComp h' st ht nt hh lh =>
           if negb (str_eqb h h') then Err ESpecHash
           else match st with
                | None => Err EDecode
-               | Some s => Ok (EComp h s ht nt)
+               | Some s => Ok (EComp h s ht nt hh lh)
                end
       | _ => Err EView
       end
